@@ -89,9 +89,13 @@ pub fn check(a: &Analysis, _aux: &mut Aux, t: &mut Tally) -> Vec<Violation> {
             let d = sig::decide(&sigs, x.payload, true);
             // "also a valid request of another supported protocol": completes another protocol's
             // signature, or (datagrams fall back to DNS) parses completely as a DNS query
+            // ... or is a message about which C14 itself leaves open whether the DNS responder answers it
+            // (e.g. a name whose label length runs over NUL octets: the responder reads names up to
+            // the first zero octet)
             let dns_query = app != App::Dns
                 && d == Decision::NoMatch
-                && dns::decode(x.payload).map(|m| !m.h.qr() && m.consumed <= x.payload.len()).unwrap_or(false);
+                && (dns::decode(x.payload).map(|m| !m.h.qr() && m.consumed <= x.payload.len()).unwrap_or(false)
+                    || matches!(dns::classify_query(x.payload), dns::QueryClass::DontCare(_)));
             let other = matches!(&d, Decision::Match { sig, .. } if sigs[*sig].app != app) || d == Decision::Ambiguous || dns_query;
             let idx = a.steps[x.si].idx;
             if other {
